@@ -37,7 +37,9 @@ def main():
         import puan
         assert os.path.realpath(os.path.dirname(os.path.dirname(puan.__file__))) == os.path.realpath(REPO), puan.__file__
         mod.run(res, a.tier, seed)
-    except Exception as e:
+    except (KeyboardInterrupt, SystemExit):
+        raise
+    except BaseException as e:                  # pyo3 panics of the binary wheel derive from BaseException
         import traceback
         res.violation("infra", f"check crashed: {type(e).__name__}: {e}", {"traceback": traceback.format_exc()[-3000:]})
     try:
